@@ -1,0 +1,19 @@
+//go:build verif
+
+package cache
+
+// VerifEach calls f for every cache entry (under the cache mutex).
+func (c *Cache) VerifEach(f func(id uint64, obj interface{})) {
+	c.mu.Lock()
+	for id, e := range c.entries {
+		f(id, e.slot.Obj)
+	}
+	c.mu.Unlock()
+}
+
+// VerifCount returns the number of entries and the capacity.
+func (c *Cache) VerifCount() (uint64, uint64) {
+	c.mu.Lock()
+	defer c.mu.Unlock()
+	return c.cnt, c.sz
+}
